@@ -5,3 +5,4 @@ pub mod codec;
 pub mod crypto;
 pub mod csf;
 pub mod frame;
+pub mod kdf;
